@@ -947,6 +947,6 @@ pub fn run_mmrp(op: &str, a: &[Arg], st: &mut Stats) -> Option<Out> {
             let fail = h.fails.first().cloned();
             Out::ok(reply).with_oracle(fail.is_none(), fail.unwrap_or_default())
         }
-        _ => return None,
+        _ => return super::c05bulk::run_mmrp_more(op, a, st), // bulk / history ops (c05bulk.rs)
     })
 }
